@@ -52,7 +52,7 @@ pub proof fn lemma_st_trees_map(v: Seq<StructureTag>, ts: Seq<Tag>, n: nat)
 //@ ret r
 //@ closure at="|x| x.into_structure()" params="x: Tag" ret="(o: StructureTag)"
                 ensures st_tree(o) == tree(x)
-//@ tail at="structure::StructureTag {"
+//@ tail last
         proof { let v = verif_ret.payload->C_0@; lemma_st_trees_map(v, this.inner@, v.len()); }
 //@ spec
     ensures st_tree(r) == tree(Tag::Sequence(this)), //# C07+C02.sequence_children_converted_element_wise_in_order
@@ -64,7 +64,7 @@ pub proof fn lemma_st_trees_map(v: Seq<StructureTag>, ts: Seq<Tag>, n: nat)
 //@ ret r
 //@ closure at="|x| x.into_structure()" params="x: Tag" ret="(o: StructureTag)"
                 ensures st_tree(o) == tree(x)
-//@ tail at="structure::StructureTag {"
+//@ tail last
         proof { let v = verif_ret.payload->C_0@; lemma_st_trees_map(v, this.inner@, v.len()); }
 //@ spec
     ensures st_tree(r) == tree(Tag::Set(this)), //# C07+C02.set_children_converted_element_wise_in_order
